@@ -15,6 +15,7 @@ import (
 	"strconv"
 	"strings"
 	"sync"
+	"sync/atomic"
 	"time"
 
 	"verifsim/core"
@@ -626,6 +627,10 @@ func Check(prop *Property, tier string, seed uint64, workers int, verifDir strin
 			memLimitMiB = 700
 		}
 	}
+	runWatchdog := 45 * time.Minute
+	if v, err := time.ParseDuration(os.Getenv("VERIF_RUN_WATCHDOG")); err == nil && v > 0 {
+		runWatchdog = v
+	}
 	start := time.Now()
 	var mu sync.Mutex
 	var records []*RunRecord
@@ -652,9 +657,32 @@ func Check(prop *Property, tier string, seed uint64, workers int, verifDir strin
 				codes[i] = 2
 				return
 			}
+			// watchdog: one run (including its minimisation) that takes longer than this is killed and the
+			// check ends as a tool error (exit 2) instead of hanging; simulated runs take seconds to minutes
+			var lastEvent atomic.Int64
+			lastEvent.Store(time.Now().UnixNano())
+			stopWatch := make(chan struct{})
+			defer close(stopWatch)
+			go func() {
+				t := time.NewTicker(10 * time.Second)
+				defer t.Stop()
+				for {
+					select {
+					case <-stopWatch:
+						return
+					case <-t.C:
+						if time.Since(time.Unix(0, lastEvent.Load())) > runWatchdog {
+							fmt.Fprintf(os.Stderr, "watchdog: worker %d produced nothing for %v, killing it\n", i, runWatchdog)
+							cmd.Process.Kill()
+							return
+						}
+					}
+				}
+			}()
 			sc := bufio.NewScanner(stdout)
 			sc.Buffer(make([]byte, 1<<20), 1<<28)
 			for sc.Scan() {
+				lastEvent.Store(time.Now().UnixNano())
 				var rec RunRecord
 				if err := json.Unmarshal(sc.Bytes(), &rec); err != nil {
 					continue
